@@ -1063,3 +1063,40 @@ def run_manager_history(args):
     except Exception as e:  # noqa: BLE001
         out["raise"] = type(e).__name__ + ": " + str(e)[:300]
     return out
+
+
+# --------------------------------------------------------------------------- multi-year calendars (HybridLoad built directly)
+MULTI_YEAR_SETS = [[2018, 2019], [2019, 2020], [2020, 2021], [2019, 2020, 2021], [2021, 2022, 2023], [2023, 2024]]
+
+
+def multiyear_profile(seed, years, flavour="wave"):
+    raw = []
+    for k, y in enumerate(years):
+        hrs = 8784 if y % 4 == 0 else 8760
+        raw += (peaky_profile(seed + k, hrs, 1, 30000.0 * (1 + 0.4 * k)) if flavour == "peaky" else wave_profile(seed + 31 * k, hrs))
+    return raw
+
+
+def has_leap(years):
+    return any(y % 4 == 0 for y in years)
+
+
+def run_multiyear(args):
+    """A real HybridLoad built directly with a multi-year `years` list over all its load years."""
+    from ghedesigner.ground_loads import HybridLoad
+    from ghedesigner.simulation import SimulationParameters
+
+    a = args
+    eq, rn = borehole(a["phys"])
+    raw = multiyear_profile(a["seed"], a["years"], a.get("flavour", "wave"))
+    try:
+        with warnings.catch_warnings(), ghelib.quiet():
+            warnings.simplefilter("ignore")
+            hl = HybridLoad(list(raw), eq, rn, SimulationParameters(1, 12 * len(a["years"]), 35.0, 5.0, 135.0, 60.0), years=list(a["years"]))
+    except Exception as e:  # noqa: BLE001
+        return {"raise": type(e).__name__ + ": " + str(e)[:200]}
+    return {"snap": snapshot_hybrid(hl)}
+
+
+def multiyear_jobs(rng, phys, flavour="wave"):
+    return [{"phys": phys, "seed": rng.randrange(1 << 30), "years": list(ys), "flavour": flavour} for ys in MULTI_YEAR_SETS]
